@@ -4,7 +4,7 @@ import RaftProofs.ClusterCommit2S
 Cluster-level commit safety, part 2T: **the components of the main induction** (`Sm`) and the facts
 about leaders' logs and commit events that follow from the components at earlier points (`SAll`).
 
-For a history `h` under `Hyp3`, `Sm h c0 m s` collects what is known about the state `s = h[m]`, for
+For a history `h` under `Hyp3a`, `Sm h c0 m s` collects what is known about the state `s = h[m]`, for
 **every** commit event `E` of the history (past or future — the events are a prophecy, like the owners
 of the terms in the Log Matching layer):
 
@@ -87,13 +87,13 @@ def SAll (h : List Sys) (c0 n : Nat) : Prop := ∀ m s, m ≤ n → h[m]? = some
 variable {cfg : JointConfig} {c0 : Nat} {h : List Sys}
 
 /-- the log of a commit event is a leader's log -/
-theorem Ev.leaderLog (H : Hyp2 cfg c0 h) {E : Ev} (hE : E.ok h) :
+theorem Ev.leaderLog (H : Hyp2w cfg c0 h) {E : Ev} (hE : E.ok h) :
     LeaderLog h (E.nE + 1) E.t E.gE ∧ Has E.gE E.c E.t ∧ c0 < E.c := by
   obtain ⟨a, b, sta, stb, ha, hb, hla, hlb, hs, ht, hc, hg, _, _, hc0, hh, _⟩ := Ev.facts H hE
   exact ⟨⟨E.nE + 1, b, E.l, stb, Nat.le_refl _, hb, hlb, hs, ht, hg⟩, hh, hc0⟩
 
 /-- two logs of the leader of one term hold the same entry wherever both reach -/
-theorem ll_eq (H : Hyp2 cfg c0 h) {N N' t : Nat} {L L' : LLog} (h1 : LeaderLog h N t L)
+theorem ll_eq (H : Hyp2w cfg c0 h) {N N' t : Nat} {L L' : LLog} (h1 : LeaderLog h N t L)
     (h2 : LeaderLog h N' t L') {k : Nat} (hk : k ≤ L.lastIndex) (hk' : k ≤ L'.lastIndex) :
     L.entryAt k = L'.entryAt k := by
   obtain ⟨m, s, l, st, _, a2, a3, a4, a5, rfl⟩ := h1
@@ -101,7 +101,7 @@ theorem ll_eq (H : Hyp2 cfg c0 h) {N N' t : Nat} {L L' : LLog} (h1 : LeaderLog h
   exact leader_logs_eq H a2 b2 a3 b3 a4 b4 a5 b5 hk hk'
 
 /-- a node's log that holds an entry of a leader's log at `c` equals that log up to `c` -/
-theorem eq_ll (H : Hyp2 cfg c0 h) {n : Nat} {s : Sys} (hn : h[n]? = some s) {v : Nat}
+theorem eq_ll (H : Hyp2w cfg c0 h) {n : Nat} {s : Sys} (hn : h[n]? = some s) {v : Nat}
     {st : NState} (hv : s.node v = some st) {N t : Nat} {L : LLog} (hL : LeaderLog h N t L)
     {c τ : Nat} (h1 : Has st.raft.raftLog.abs c τ) (h2 : Has L c τ) :
     EqUpTo st.raft.raftLog.abs L c := by
@@ -112,7 +112,7 @@ theorem eq_ll (H : Hyp2 cfg c0 h) {n : Nat} {s : Sys} (hn : h[n]? = some s) {v :
 
 /-- **a leader of the event's term or a later one holds the committed entry** (for the event's own
 term: once its log reaches the index) -/
-theorem ll_has (H : Hyp2 cfg c0 h) {n : Nat} (S : SAll h c0 n) {τ : Nat} {L : LLog}
+theorem ll_has (H : Hyp2w cfg c0 h) {n : Nat} (S : SAll h c0 n) {τ : Nat} {L : LLog}
     (hL : LeaderLog h n τ L) {E : Ev} (hE : E.ok h) (hle : E.t ≤ τ)
     (hreach : τ = E.t → E.c ≤ L.lastIndex) : Has L E.c E.t := by
   by_cases hlt : E.t < τ
@@ -128,7 +128,7 @@ theorem ll_has (H : Hyp2 cfg c0 h) {n : Nat} (S : SAll h c0 n) {τ : Nat} {L : L
 /-- **the logs of two commit events agree**: the log of a past event `E0` holds the entry of any event
 `E` that committed no more (`E.c ≤ E0.c`) — given, when `E0`'s term is the smaller one, that `E`'s term
 has been led by now -/
-theorem ctf (H : Hyp2 cfg c0 h) {n : Nat} (S : SAll h c0 n) {E0 E : Ev} (hE0 : E0.ok h)
+theorem ctf (H : Hyp2w cfg c0 h) {n : Nat} (S : SAll h c0 n) {E0 E : Ev} (hE0 : E0.ok h)
     (hE : E.ok h) (hpast : E0.nE < n) (hc : E.c ≤ E0.c)
     (hled : E0.t < E.t → ∃ L, LeaderLog h n E.t L) : Has E0.gE E.c E.t := by
   obtain ⟨hl0, hh0, _⟩ := Ev.leaderLog H hE0
